@@ -87,9 +87,13 @@ type items struct {
 	sb    strings.Builder
 	n     int
 	attrs int
+	maps  []pcommon.Map // copies of the attribute maps, in traversal order
 }
 
 func (it *items) attrsItem(m pcommon.Map) {
+	cp := pcommon.NewMap()
+	m.CopyTo(cp)
+	it.maps = append(it.maps, cp)
 	if it.n > 0 {
 		it.sb.WriteString("; ")
 	}
@@ -398,6 +402,45 @@ func (g *gen) metrics() pmetric.Metrics {
 	return md
 }
 
+// collisionPossible: some attribute map (at any nesting level) holds a listed key and another key of the
+// same byte length — the only way the list-mode renaming enc(k1) can hit an existing key k2.
+func collisionPossibleValue(v pcommon.Value, listed map[string]bool) bool {
+	switch v.Type() {
+	case pcommon.ValueTypeMap:
+		return collisionPossible(v.Map(), listed)
+	case pcommon.ValueTypeSlice:
+		for i := 0; i < v.Slice().Len(); i++ {
+			if collisionPossibleValue(v.Slice().At(i), listed) {
+				return true
+			}
+		}
+	}
+	return false
+}
+
+func collisionPossible(m pcommon.Map, listed map[string]bool) bool {
+	found := false
+	var keys []string
+	m.Range(func(k string, v pcommon.Value) bool {
+		keys = append(keys, k)
+		if collisionPossibleValue(v, listed) {
+			found = true
+		}
+		return true
+	})
+	for _, k1 := range keys {
+		if !listed[k1] {
+			continue
+		}
+		for _, k2 := range keys {
+			if k2 != k1 && len(k2) == len(k1) {
+				found = true
+			}
+		}
+	}
+	return found
+}
+
 type capture struct {
 	t []ptrace.Traces
 	l []plog.Logs
@@ -448,6 +491,7 @@ func runObf(o opts, out *Output) {
 		set := processortest.NewNopSettings(f.Type())
 		ndocs := 1 + r.Intn(3)
 		var pairs []string
+		var inMaps [][]pcommon.Map
 		var sample []map[string]any
 		nattrs := 0
 		ctx := context.Background()
@@ -460,6 +504,7 @@ func runObf(o opts, out *Output) {
 			for d := 0; d < ndocs; d++ {
 				td := g.traces()
 				in := flattenTraces(td)
+				inMaps = append(inMaps, in.maps)
 				if err := p.ConsumeTraces(ctx, td); err != nil {
 					out.Violation("C17", "processor-error", err.Error(), nil)
 				}
@@ -476,6 +521,7 @@ func runObf(o opts, out *Output) {
 			for d := 0; d < ndocs; d++ {
 				ld := g.logs()
 				in := flattenLogs(ld)
+				inMaps = append(inMaps, in.maps)
 				_ = p.ConsumeLogs(ctx, ld)
 				res := flattenLogs(cp.l[len(cp.l)-1])
 				pairs = append(pairs, fmt.Sprintf("(%s,\n   %s)", in, res))
@@ -490,6 +536,7 @@ func runObf(o opts, out *Output) {
 			for d := 0; d < ndocs; d++ {
 				md := g.metrics()
 				in := flattenMetrics(md)
+				inMaps = append(inMaps, in.maps)
 				_ = p.ConsumeMetrics(ctx, md)
 				res := flattenMetrics(cp.m[len(cp.m)-1])
 				pairs = append(pairs, fmt.Sprintf("(%s,\n   %s)", in, res))
@@ -497,11 +544,35 @@ func runObf(o opts, out *Output) {
 				sample = append(sample, map[string]any{"items_in": in.n, "items_out": res.n, "attributes_in": in.attrs, "attributes_out": res.attrs})
 			}
 		}
-		for _, s := range sample {
+		collided := false
+		for di, s := range sample {
 			if s["attributes_in"] != s["attributes_out"] {
-				out.Violation("C17", "attribute-count-changed", fmt.Sprintf("the processor changed the number of attributes of a document from %v to %v (mode all=%v, listed=%v)", s["attributes_in"], s["attributes_out"], all, listed), map[string]any{"seed": o.seed, "case": c, "signal": signal, "encrypt_all": all, "encrypt_attributes": listed})
+				replay := map[string]any{"seed": o.seed, "case": c, "signal": signal, "encrypt_all": all, "encrypt_attributes": listed}
+				lm := map[string]bool{}
+				for _, k := range listed {
+					lm[k] = true
+				}
+				explained := false
+				if !all {
+					for _, m := range inMaps[di] {
+						if collisionPossible(m, lm) {
+							explained = true
+						}
+					}
+				}
+				if explained {
+					collided = true
+					out.Violation("C17", "list-mode-renamed-key-collision", fmt.Sprintf("encrypt_attributes mode: a listed key was renamed to a substitute equal to another key of the same attribute map, which was overwritten (attributes %v -> %v, listed=%v)", s["attributes_in"], s["attributes_out"], listed), replay)
+				} else {
+					out.Violation("C17", "attribute-count-changed", fmt.Sprintf("the processor changed the number of attributes of a document from %v to %v (mode all=%v, listed=%v)", s["attributes_in"], s["attributes_out"], all, listed), replay)
+				}
 				break
 			}
+		}
+		if collided {
+			// the recorded finding: not part of the model comparison (the model's list-mode theorem carries exactly this hypothesis)
+			out.AddCase(map[string]any{"signal": signal, "encrypt_all": all, "encrypt_attributes": listed, "collision": true}, true, "list-mode key collision")
+			continue
 		}
 		var ls []string
 		for _, k := range listed {
@@ -513,6 +584,36 @@ func runObf(o opts, out *Output) {
 		fmt.Fprintf(&sb, " (%d, %v, [%s], [%s])", signal, all, strings.Join(ls, "; "), strings.Join(pairs, ";\n  "))
 		out.AddCase(map[string]any{"signal": []string{"traces", "logs", "metrics"}[signal], "encrypt_all": all, "encrypt_attributes": listed, "rounds": cfg.Rounds, "key_length": cfg.KeyLength, "docs": sample},
 			nattrs > 0, fmt.Sprintf("signal=%d all=%v listed=%d", signal, all, len(listed)))
+	}
+	// ---- the recorded finding, exhibited directly: list mode, a listed 1-byte key next to many unlisted 1-byte keys.
+	// Each processor instance draws a random cipher key; the substitute of "a" is one byte and hits one of the 200
+	// other keys with probability 200/256 per instance.
+	for inst := 0; inst < 40; inst++ {
+		cfg := f.CreateDefaultConfig().(*obf.Config)
+		cfg.EncryptAll = false
+		cfg.EncryptAttributes = []string{"a"}
+		cp := &capture{}
+		p, err := f.CreateLogs(context.Background(), processortest.NewNopSettings(f.Type()), cfg, cp)
+		if err != nil {
+			break
+		}
+		ld := plog.NewLogs()
+		lr := ld.ResourceLogs().AppendEmpty().ScopeLogs().AppendEmpty().LogRecords().AppendEmpty()
+		lr.Attributes().PutStr("a", "secret")
+		for b := 33; b < 233; b++ {
+			if byte(b) != 'a' {
+				lr.Attributes().PutInt(string([]byte{byte(b)}), int64(b))
+			}
+		}
+		before := lr.Attributes().Len()
+		_ = p.ConsumeLogs(context.Background(), ld)
+		after := cp.l[0].ResourceLogs().At(0).ScopeLogs().At(0).LogRecords().At(0).Attributes().Len()
+		out.AddCase(map[string]any{"collision_hunt_instance": inst, "attributes_in": before, "attributes_out": after}, true, "collision hunt")
+		if after < before {
+			out.Violation("C17", "list-mode-renamed-key-collision", fmt.Sprintf("encrypt_attributes=[a]: log record with attribute 'a' and 199 other one-byte keys: %d attributes in, %d out (processor instance %d of this run): the substitute of the listed key equals another key of the map, which was overwritten", before, after, inst),
+				map[string]any{"encrypt_attributes": []string{"a"}, "instance": inst, "attributes_in": before, "attributes_out": after})
+			break
+		}
 	}
 	sb.WriteString("\n].\n")
 	out.Coq.WriteString(sb.String())
